@@ -69,6 +69,34 @@ static cJSON_bool print_number(const cJSON * const item, printbuffer * const out
     output_buffer->offset += (size_t)length;
     return true;
 }
+/* OUT1: a bounded text printed straight into the output where the code itself has shown that it fits */
+static cJSON_bool bad_OUT1_direct_tight(const int number, printbuffer * const output_buffer)
+{
+    int length = 0;
+    if (output_buffer->buffer == NULL) { return false; }
+    if ((output_buffer->offset < output_buffer->length) && ((output_buffer->length - output_buffer->offset) >= 11))
+    {
+        length = sprintf((char*)(output_buffer->buffer + output_buffer->offset), "%d", number);
+        if (length < 0) { return false; }
+        output_buffer->offset += (size_t)length;
+        return true;
+    }
+    return false;
+}
+static cJSON_bool good_direct_room(const int number, printbuffer * const output_buffer)
+{
+    int length = 0;
+    if (output_buffer->buffer == NULL) { return false; }
+    if ((output_buffer->offset < output_buffer->length) && ((output_buffer->length - output_buffer->offset) > 11))
+    {
+        length = sprintf((char*)(output_buffer->buffer + output_buffer->offset), "%d", number);
+        if (length < 0) { return false; }
+        output_buffer->offset += (size_t)length;
+        return true;
+    }
+    return false;
+}
+cJSON_bool use_direct(int n, printbuffer *p) { return bad_OUT1_direct_tight(n, p) + good_direct_room(n, p); }
 /* TAB5b: tab not counted; TAB5c: vertical tab written as \v */
 static cJSON_bool print_string_ptr(const unsigned char * const input, printbuffer * const output_buffer)
 {
